@@ -35,6 +35,25 @@ def _cleanup():
 atexit.register(_cleanup)
 
 
+def sweep_stale(max_age_s=6 * 3600):
+    """Remove scratch directories that a killed earlier run left behind (older than max_age_s)."""
+    base = os.environ.get("VERIF_SCRATCH") or tempfile.gettempdir()
+    now = time.time()
+    try:
+        names = os.listdir(base)
+    except OSError:
+        return
+    for n in names:
+        if not re.match(r"(tlc|vf|harness|c\d\d\w*|t\d+|setup)-[A-Za-z0-9_]{6,}$", n):
+            continue
+        p = os.path.join(base, n)
+        try:
+            if os.path.isdir(p) and now - os.path.getmtime(p) > max_age_s:
+                shutil.rmtree(p, ignore_errors=True)
+        except OSError:
+            pass
+
+
 def goenv():
     e = dict(os.environ)
     # the repository needs go1.26.0, reachable only through GOTOOLCHAIN=auto (the default);
@@ -409,6 +428,7 @@ def load_findings():
 
 class Verdict:
     def __init__(self, pid, tier, seed, level):
+        sweep_stale()
         self.pid, self.tier, self.seed, self.level = pid, tier, seed, level
         self.t0 = time.time()
         self.violations = []   # (key, text, replay object)
